@@ -441,3 +441,20 @@ Definition reopen_db (st : db) : db :=
   {| d_disk := d_disk st; d_root := d_root st; d_next := d_next st; d_np := d_np st; d_fl := d_fl st; d_fln := d_fln st;
      d_flids := d_flids st; d_tx := d_tx st; d_free := fold_left (fun f p => sins p f) (d_flids st) []; d_pending := [];
      d_psz := d_psz st |}.
+
+(* the order in which spill visits the opened sub-buckets is an oracle (HashMap iteration order); this is one
+   admissible choice -- insertion order, pre-order -- used when the model is run on its own (model-side search) *)
+Fixpoint auto_ord (fuel : nat) (b : bucket) : list bytes :=
+  match fuel with
+  | O => []
+  | S f => if negb (is_dirty fuel0 b) then [] else flat_map (fun x => fst x :: auto_ord f (snd x)) (b_subs b)
+  end.
+Definition run_tx_auto (st : db) (ops : list op) : res db :=
+  let s0 := begin_w st in
+  '(root', s') <- fold_res (fun acc o => let '(rb, s) := acc in
+       match o with
+       | Put p k v => soft (rb, s) (at_path 8 (d_disk st) rb p (fun b s => soft (b, s) (b_put (d_disk st) b k v s)) s)
+       | Del p k => soft (rb, s) (at_path 8 (d_disk st) rb p (fun b s => soft (b, s) (b_delete (d_disk st) b k s)) s)
+       | DelB p nm => soft (rb, s) (at_path 8 (d_disk st) rb p (fun b s => soft (b, s) (b_delete_bucket (d_disk st) b nm s)) s)
+       | Touch p => soft (rb, s) (at_path 8 (d_disk st) rb p (fun b s => Ok (b, s)) s) end) ops (root_bucket st, s0) ;;
+  commit st root' s' (auto_ord 16 root').
